@@ -585,9 +585,131 @@ def _same_value(s1, e1, at1, s2, e2, at2) -> bool:
     return False
 
 
-@R.rule("C02-R2", floor=5, template="T-FLOW",
+# ---- abstract evaluation of a predicate of ONE argument over {None, empty container, non-empty container}
+_ABS = ("NONE", "EMPTY", "NONEMPTY")
+
+
+class _NotDecided(Exception):
+    pass
+
+
+def _abs_truth(v):
+    if v in _ABS:
+        return v == "NONEMPTY"
+    if v == "POS":
+        return True
+    if isinstance(v, (bool, int, str, type(None))):
+        return bool(v)
+    raise _NotDecided(repr(v))
+
+
+def _abs_eval(e: ast.expr, var: str, a: str):
+    """value of `e` when the only free name `var` holds the abstract value `a`"""
+    if isinstance(e, ast.Name):
+        if e.id == var:
+            return a
+        raise _NotDecided(e.id)
+    if isinstance(e, ast.Constant):
+        return e.value
+    if isinstance(e, ast.UnaryOp) and isinstance(e.op, ast.Not):
+        return not _abs_truth(_abs_eval(e.operand, var, a))
+    if isinstance(e, ast.BoolOp):
+        val = None
+        for x in e.values:
+            val = _abs_eval(x, var, a)
+            t = _abs_truth(val)
+            if (isinstance(e.op, ast.And) and not t) or (isinstance(e.op, ast.Or) and t):
+                return val
+        return val
+    if isinstance(e, ast.IfExp):
+        return _abs_eval(e.body if _abs_truth(_abs_eval(e.test, var, a)) else e.orelse, var, a)
+    if isinstance(e, ast.Call) and isinstance(e.func, ast.Name) and len(e.args) == 1 and not e.keywords:
+        if e.func.id == "bool":
+            return _abs_truth(_abs_eval(e.args[0], var, a))
+        if e.func.id in ("tuple", "frozenset", "list", "dict", "sorted"):
+            return _abs_eval(e.args[0], var, a)  # a repackaging: keeps what the argument tells apart
+        if e.func.id == "len":
+            v = _abs_eval(e.args[0], var, a)
+            if v == "EMPTY":
+                return 0
+            if v == "NONEMPTY":
+                return "POS"
+        raise _NotDecided(unparse(e))
+    if isinstance(e, ast.Compare) and len(e.ops) == 1:
+        l, r = _abs_eval(e.left, var, a), _abs_eval(e.comparators[0], var, a)
+        op = e.ops[0]
+        if isinstance(op, (ast.Is, ast.IsNot, ast.Eq, ast.NotEq)) and (l is None or r is None or "NONE" in (l, r)):
+            other = r if (l is None or l == "NONE") else l
+            if (l is None or l == "NONE") and (r is None or r == "NONE"):
+                same = True
+            elif other in ("EMPTY", "NONEMPTY", "POS") or isinstance(other, (bool, int, str)):
+                same = False
+            else:
+                raise _NotDecided(unparse(e))
+            return same if isinstance(op, (ast.Is, ast.Eq)) else not same
+        if "POS" in (l, r) or isinstance(l, int) and isinstance(r, int):
+            # len(x) against 0 / 1
+            def num(v, lo):
+                return (1 if lo else 10 ** 6) if v == "POS" else v
+            if all(isinstance(v, int) or v == "POS" for v in (l, r)) and not isinstance(l, bool) and not isinstance(r, bool):
+                import operator as _o
+                fn = {ast.Gt: _o.gt, ast.GtE: _o.ge, ast.Lt: _o.lt, ast.LtE: _o.le, ast.Eq: _o.eq, ast.NotEq: _o.ne}.get(type(op))
+                if fn is not None:
+                    lo, hi = fn(num(l, True), num(r, True)), fn(num(l, False), num(r, False))
+                    if lo == hi:
+                        return lo
+        raise _NotDecided(unparse(e))
+    raise _NotDecided(unparse(e))
+
+
+def _signature(e: ast.expr, var: str):
+    """(value for None, for an empty container, for a non-empty container) or None if not decidable"""
+    try:
+        return tuple(_abs_eval(e, var, a) for a in _ABS)
+    except _NotDecided:
+        return None
+
+
+def _only_name(e: ast.expr) -> Optional[str]:
+    names = {n.id for n in ast.walk(e) if isinstance(n, ast.Name)} - {"bool", "len", "tuple", "frozenset", "list", "dict", "sorted"}
+    return next(iter(names)) if len(names) == 1 else None
+
+
+def _compile_time_gates(ctx, kwname: str):
+    """[(FuncInfo, test expr, signature)] conditions on the constructor argument `kwname` alone in the __init__
+    methods of Compiled and its subclasses (if / while / conditional expression tests),
+    with locals bound once resolved."""
+    from ._helpers_rob_c1 import inline_locals
+    base = ctx.index.cls(f"{CMP}::Compiled")
+    out = []
+    for c in [base] + list(ctx.index.subclasses(base)):
+        if c.module.relpath.startswith("testing"):
+            continue
+        f = c.methods.get("__init__")
+        if f is None or kwname not in f.params:
+            continue
+        ctx.functions_analysed.add(f.key)
+        tests = []
+        for n in walk_local(f.node):
+            if isinstance(n, (ast.If, ast.While, ast.IfExp)):  # (an assert is a type-narrowing no-op, not a branch)
+                tests.append(n.test)
+            elif isinstance(n, ast.comprehension):
+                tests.extend(n.ifs)
+        for t in tests:
+            t2 = inline_locals(f.node, t)
+            if _only_name(t2) != kwname:
+                continue
+            sig = _signature(t2, kwname)
+            if sig is not None:
+                out.append((f, t, tuple(_abs_truth(v) for v in sig)))
+    return out
+
+
+@R.rule("C02-R2", floor=6, template="T-FLOW",
         desc="_compile_w_cache: every argument forwarded to the compiler on a miss is part of the lookup key; the "
-             "compiled object is stored under the key that was looked up")
+             "compiled object is stored under the key that was looked up; a key component that projects an argument "
+             "to a predicate (bool(m), m is not None) separates every two values (None / empty / non-empty) that a "
+             "test on that argument in Compiled.__init__ (and subclasses) separates")
 def r2(ctx):
     from ._helpers_rob_c2 import Scope
     f = ctx.func("sql/elements.py::ClauseElement._compile_w_cache")
@@ -619,6 +741,34 @@ def r2(ctx):
                         forwarded.add(atom[6:])
                     elif atom == "<self>":
                         forwarded.add(f.params[0])
+    # a key component that is a lossy projection of a forwarded argument (bool(m), m is not None, len(m) > 0 ...)
+    # must tell apart every two argument values that the compiler's constructor tells apart: over the abstract
+    # values {None, empty, non-empty}, gate(a) != gate(b) implies component(a) != component(b)
+    from ._helpers_rob_c1 import inline_locals, bind_call_args
+    kwnames: Dict[str, str] = {}
+    for s, c, at in comp_calls:
+        for k in c.keywords:
+            if k.arg:
+                d = s.deps(k.value, at)
+                if len(d) == 1 and next(iter(d)).startswith("param:") and next(iter(d))[6:] in forwarded:
+                    kwnames[next(iter(d))[6:]] = k.arg
+    comps: List[ast.expr] = []
+    for s, k, at in lookups:
+        if s is not sc:
+            continue
+        for kind, x, n2 in s.origins(k, at) if isinstance(k, ast.Name) else [("expr", k, at)]:
+            if kind != "expr":
+                continue
+            if isinstance(x, ast.Tuple):
+                comps.extend(inline_locals(f.node, e) for e in x.elts)
+            elif isinstance(x, ast.Call):
+                tgt = sc.resolve_callee(x, n2)
+                rets = [r for r in returns_of(tgt.node) if r.value is not None] if tgt is not None else []
+                if len(rets) == 1 and isinstance(inline_locals(tgt.node, rets[0].value), ast.Tuple):
+                    b = bind_call_args(x, [p for p in tgt.params if p not in ("self", "cls")])
+                    if b is not None:
+                        env = {pn: inline_locals(f.node, v) for pn, v in b.items()}
+                        comps.extend(inline_locals(tgt.node, e, env=env) for e in inline_locals(tgt.node, rets[0].value).elts)
     exempt = {"self": "the statement is keyed through its cache key (elem_cache_key)", "kw": "linting flags: per-engine constants"}
     loc = f"{f.module.path}:{getattr(lookups[0][1], 'lineno', f.node.lineno)}"
     for p in sorted(forwarded):
@@ -626,6 +776,10 @@ def r2(ctx):
             ctx.ok(f"{f.key}:{p}", "exempt: " + exempt[p], nontrivial=False)
             continue
         missing = [f"`{unparse(k)[:60]}` (line {getattr(k, 'lineno', '?')})" for s, k, at, d in key_must if "param:" + p not in d]
+        # `True if p else False`: a conditional over constants carries no data dependency, yet it is a predicate of p
+        proj = [_signature(e, p) for e in comps if _only_name(e) == p]
+        if missing and proj and all(sg is not None and len(set(map(repr, sg))) > 1 for sg in proj) and len(lookups) == len(stores) == 1:
+            missing = []
         ctx.check(not missing, f"{f.key}:{p}",
                   f"argument `{p}` is forwarded to the compiler on a cache miss but is not part of the cache "
                   f"key {missing[:2]}: a compiled form built for one value would be served for another",
@@ -641,6 +795,39 @@ def r2(ctx):
             bad.append(f"`{unparse(k)[:60]}` (line {getattr(k, 'lineno', '?')})")
     ctx.check(not bad, f"{f.key}:same-key", f"compiled_cache is written under a key {bad} that is not the key it was looked "
                                            f"up with", f"{len(lookups)} lookup(s) / {len(stores)} store(s) under one key", f.loc)
+
+    for p in sorted(forwarded):
+        if p in exempt or p not in kwnames:
+            continue
+        mine = [e for e in comps if _only_name(e) == p]
+        if not mine:
+            continue  # the component could not be isolated (key built elsewhere): covered by the dependency check above
+        gates = _compile_time_gates(ctx, kwnames[p])
+        key2 = f"{f.key}:{p}:key-refines-compiler-gates"
+        sigs = [(_signature(e, p), e) for e in mine]
+        if any(sg is None for sg, e in sigs):
+            ctx.note(f"{key2}: key component `{unparse([e for sg, e in sigs if sg is None][0])}` is not a predicate of the "
+                     f"argument alone over None/empty/non-empty: not decided")
+            continue
+        bad = []
+        for gf, gt, gs in gates:
+            for i in range(3):
+                for j in range(i + 1, 3):
+                    if gs[i] != gs[j] and all(sg[i] == sg[j] for sg, e in sigs):
+                        bad.append((gf, gt, _ABS[i], _ABS[j]))
+        names = {"NONE": "None", "EMPTY": "an empty value", "NONEMPTY": "a non-empty value"}
+        if bad:
+            gf, gt, a, b = bad[0]
+            ctx.violation(
+                key2,
+                f"the cache key carries `{' / '.join(unparse(e) for sg, e in sigs)}` for argument `{p}`, which is the same for "
+                f"{names[a]} and {names[b]}, but {gf.qualname} (which receives it as `{kwnames[p]}` on a cache miss) branches on "
+                f"`{unparse(gt)}`, which tells them apart: a form compiled for one is served from the cache for the other",
+                loc, [f"{g.qualname}: `{unparse(t)}` distinguishes {names[x]} from {names[y]}" for g, t, x, y in bad[:4]])
+        else:
+            ctx.ok(key2, f"`{' / '.join(unparse(e) for sg, e in sigs)}` separates every two values of `{p}` that the "
+                         f"{len(gates)} compile-time test(s) on `{kwnames[p]}` in Compiled.__init__ & subclasses separate",
+                   nontrivial=bool(gates))
 
 
 @R.rule("C02-R3", floor=50, template="T-EXHAUST",
@@ -1098,6 +1285,186 @@ def r5(ctx):
     ctx.require(n_b >= 6, f"only {n_b} statement classes compared between the two collectors")
 
 
+# ---------------------------------------------------------------------- C02-R6: forced inline rendering
+# A statement compiler can render a bound value inline in two ways.  `literal_execute` leaves a post-compile
+# token in Compiled.string that is filled at every execution from the parameters of the statement being
+# executed; `literal_binds` writes the value of the statement being COMPILED into the string.  Bound values
+# are extracted from the cache key, so two statements that differ only in such a value share the compiled
+# form: a visit method of a statement compiler may therefore switch `literal_binds` on only when the whole
+# compilation already is a literal_binds compilation (the flag it was called with), or from state of the visited
+# element (which C02-R1 requires to be keyed), or for an element it constructs itself.
+INLINE_FLAGS = ("literal_binds", "literal_execute")
+# {(function key): reason}
+R6_EXCEPTIONS: Dict[str, str] = {}
+
+
+def _flag_sites(fnode):
+    """[(flag, value expr, anchor node, rendered operand | None)] places where a render flag is given a value:
+    call keyword `flag=V`, `X["flag"] = V`, `{..., "flag": V}`, `X.setdefault("flag", V)`."""
+    out = []
+    for n in walk_local(fnode, into_nested=True):
+        if isinstance(n, ast.Call):
+            for k in n.keywords:
+                if k.arg in INLINE_FLAGS:
+                    operand = None
+                    if isinstance(n.func, ast.Attribute):
+                        if n.func.attr == "_compiler_dispatch":
+                            operand = n.func.value
+                        elif n.args:
+                            operand = n.args[0]
+                    out.append((k.arg, k.value, n, operand, n))
+            if isinstance(n.func, ast.Attribute) and n.func.attr == "setdefault" and len(n.args) == 2 \
+                    and isinstance(n.args[0], ast.Constant) and n.args[0].value in INLINE_FLAGS:
+                out.append((n.args[0].value, n.args[1], n, None, None))
+        elif isinstance(n, ast.Assign):
+            for t in n.targets:
+                if isinstance(t, ast.Subscript) and isinstance(t.slice, ast.Constant) and t.slice.value in INLINE_FLAGS:
+                    out.append((t.slice.value, n.value, n, None, None))
+        elif isinstance(n, ast.Dict):
+            for k, v in zip(n.keys, n.values):
+                if isinstance(k, ast.Constant) and k.value in INLINE_FLAGS:
+                    out.append((k.value, v, n, None, None))
+    return out
+
+
+def _is_constructor_call(ctx, mod, call: ast.Call) -> bool:
+    """a call that builds a new element (class constructor / element factory function), not a rendering call"""
+    nm = call_name(call) or ""
+    if not nm or "()" in nm:
+        return False
+    r = ctx.index.resolve(mod, nm)
+    if isinstance(r, ClassInfo):
+        return True
+    return isinstance(r, FuncInfo) and r.cls is None and r.module.relpath in (
+        "sql/_elements_constructors.py", "sql/elements.py", "sql/expression.py", "sql/_selectable_constructors.py")
+
+
+def _incoming_flag(e: ast.expr, fnode, flag: str) -> bool:
+    """does `e` read the flag this method was itself called with: its own `flag` parameter, or the flag looked
+    up in its own **kw (`kw.get(flag)`, `kw[flag]`, `kw.pop(flag, ..)`)"""
+    a = fnode.args
+    named = {x.arg for x in a.posonlyargs + a.args + a.kwonlyargs}
+    kwname = a.kwarg.arg if a.kwarg is not None else None
+    if isinstance(e, ast.Name):
+        return e.id == flag and e.id in named
+    if isinstance(e, ast.Call) and isinstance(e.func, ast.Attribute) and e.func.attr in ("get", "pop") and e.args \
+            and isinstance(e.args[0], ast.Constant) and e.args[0].value == flag:
+        return isinstance(e.func.value, ast.Name) and e.func.value.id == kwname
+    if isinstance(e, ast.Subscript) and isinstance(e.slice, ast.Constant) and e.slice.value == flag:
+        return isinstance(e.value, ast.Name) and e.value.id == kwname
+    return False
+
+
+def _implies_incoming(e: ast.expr, fnode, flag: str) -> bool:
+    """can `e` be truthy only if the method's own incoming flag is truthy"""
+    if isinstance(e, ast.Constant):
+        return not e.value  # False / None / 0: the flag is not switched on at all
+    if _incoming_flag(e, fnode, flag):
+        return True
+    if isinstance(e, ast.BoolOp):
+        if isinstance(e.op, ast.And):
+            return any(_implies_incoming(v, fnode, flag) for v in e.values)
+        return all(_implies_incoming(v, fnode, flag) for v in e.values)
+    if isinstance(e, ast.IfExp):
+        return _implies_incoming(e.body, fnode, flag) and _implies_incoming(e.orelse, fnode, flag)
+    if isinstance(e, ast.Call) and (call_name(e) or "") == "bool" and len(e.args) == 1:
+        return _implies_incoming(e.args[0], fnode, flag)
+    return False
+
+
+def _element_state(e: ast.expr, fnode) -> bool:
+    """`e` is a pure attribute read off the visited element (the method's first parameter after self)"""
+    a = fnode.args
+    pos = [x.arg for x in a.posonlyargs + a.args]
+    if len(pos) < 2:
+        return False
+    x = e
+    if not isinstance(x, ast.Attribute):
+        return False
+    while isinstance(x, ast.Attribute):
+        x = x.value
+    return isinstance(x, ast.Name) and x.id == pos[1]
+
+
+@R.rule("C02-R6", floor=12, template="T-SIBLING",
+        desc="every place where a statement compiler (SQLCompiler and its dialect subclasses) forces inline "
+             "rendering of a sub-expression does so with literal_execute (post-compile token, filled per execution), "
+             "or switches literal_binds on only as a function of the literal_binds flag it was itself called with / "
+             "of keyed element state / for an element it constructs itself")
+def r6(ctx):
+    from ._helpers_rob_c1 import inline_locals
+    from ._helpers_rob_c2 import conj_atoms
+    base = ctx.index.cls(f"{CMP}::SQLCompiler")
+    vb = ctx.index.resolve_method(base, "visit_bindparam")
+    ctx.require(vb is not None and {"literal_binds", "literal_execute"} <= set(vb.params),
+                "SQLCompiler.visit_bindparam no longer takes literal_binds / literal_execute (render flags renamed?)")
+    fam = [base] + [c for c in ctx.index.subclasses(base) if not c.module.relpath.startswith("testing")]
+    ctx.require(len(fam) >= 7, f"only {len(fam)} statement compiler classes")
+    n_exec = 0
+    for c in sorted(fam, key=lambda k: k.key):
+        for f in sorted(c.methods.values(), key=lambda m: m.key):
+            if f.type_only or f.is_overload:
+                continue
+            sites = [s for s in _flag_sites(f.node) if not (s[4] is not None and _is_constructor_call(ctx, f.module, s[4]))]
+            if not sites:
+                continue
+            ctx.functions_analysed.add(f.key)
+            g = None
+            per_flag: Dict[str, List[Tuple[bool, str, int]]] = {}
+            for flag, v, anchor, operand, call in sites:
+                val = inline_locals(f.node, v)
+                ln = getattr(anchor, "lineno", f.node.lineno)
+                if isinstance(val, ast.Constant) and not val.value:
+                    continue  # switched off
+                if flag == "literal_execute":
+                    per_flag.setdefault(flag, []).append((True, "post-compile token, filled from the executing statement's parameters", ln))
+                    continue
+                if _implies_incoming(val, f.node, flag):
+                    per_flag.setdefault(flag, []).append((True, f"`{unparse(v)}` can be true only if the caller's own literal_binds is", ln))
+                    continue
+                if _element_state(val, f.node):
+                    per_flag.setdefault(flag, []).append((True, f"`{unparse(v)}` is state of the visited element (keyed: C02-R1)", ln))
+                    continue
+                if operand is not None:
+                    op_v = inline_locals(f.node, operand)
+                    if isinstance(op_v, ast.Call) and _is_constructor_call(ctx, f.module, op_v):
+                        per_flag.setdefault(flag, []).append((True, f"renders `{unparse(operand)[:40]}`, an element built by the compiler itself", ln))
+                        continue
+                # a dominating branch outcome that demands the incoming flag
+                if g is None:
+                    g = ctx.cfg(f)
+                nodes = g.nodes_for(anchor) if isinstance(anchor, ast.stmt) else g.nodes_containing(anchor)
+                guarded = bool(nodes) and all(
+                    any(p2 and _incoming_flag(inline_locals(f.node, a), f.node, flag)
+                        for t, pol in g.edge_guards(nid) for a, p2 in conj_atoms(t, pol))
+                    for nid in nodes)
+                if guarded:
+                    per_flag.setdefault(flag, []).append((True, "under a branch taken only when the caller's own literal_binds is set", ln))
+                    continue
+                per_flag.setdefault(flag, []).append((False, f"`literal_binds` is set to `{unparse(v)}`", ln))
+            for flag, results in sorted(per_flag.items()):
+                key = f"{f.key}:inline-render[{flag}]"
+                if flag == "literal_execute":
+                    n_exec += 1
+                if f.key in R6_EXCEPTIONS:
+                    ctx.ok(key, "exception: " + R6_EXCEPTIONS[f.key], nontrivial=False)
+                    continue
+                bad = [(d, ln) for ok, d, ln in results if not ok]
+                if bad:
+                    ctx.violation(
+                        key,
+                        f"{f.qualname} switches literal_binds on for a sub-expression regardless of how the statement is "
+                        f"being compiled ({bad[0][0]}, line {bad[0][1]}): the value of the statement that populates the "
+                        f"compiled cache is written into Compiled.string, while bound values are extracted from the cache "
+                        f"key -- a later statement that differs only in that value gets a cache hit and executes the first "
+                        f"statement's literal.  Its siblings force inline rendering with literal_execute (a post-compile "
+                        f"token filled from the executing statement's parameters)",
+                        f"{f.module.path}:{bad[0][1]}", [f"line {ln}: {d}" for d, ln in bad])
+                else:
+                    ctx.ok(key, "; ".join(sorted({d for ok, d, ln in results})))
+    ctx.require(n_exec >= 8, f"only {n_exec} methods force inline rendering with literal_execute (sibling family shrank)")
+
+
 # ---------------------------------------------------------------------- self-test battery
 SEL = "sql/selectable.py"
 R.mutant("select-for-update-unkeyed", SEL, sub('        ("_for_update_arg", InternalTraversal.dp_clauseelement),\n', "", count=2), "C02-R1")
@@ -1332,3 +1699,66 @@ R.mutant("fromstatement-stops-collecting-params", "orm/context.py", sub(
     "        if compiler._collect_params:\n            compiler._add_to_params(self)\n\n"
     "        compile_state = self._compile_state_factory(self, compiler, **kw)\n",
     "        compile_state = self._compile_state_factory(self, compiler, **kw)\n"), "C02-R5")
+
+
+# ---- round-2 strengthening (str2-b): seeds C02/3 (key component `schema_translate_map is not None` while the compiler
+# gates on truthiness: R2 now compares the key component's partition of {None, empty, non-empty} with the
+# constructor's tests) and C02/4 (aggregate_strings delimiter rendered with literal_binds=True: new rule R6)
+_KEY_STM = "                bool(schema_translate_map),\n"
+R.mutant("seed3-key-component-map-is-not-none", ELT, sub(_KEY_STM, "                schema_translate_map is not None,\n"), "C02-R2")
+R.mutant("key-component-map-is-not-none-through-local", ELT, chain(
+    sub(_KEY_STM, "                has_translate_map,\n"),
+    sub("            key = (\n                dialect,\n", "            has_translate_map = not (schema_translate_map is None)\n            key = (\n                dialect,\n")), "C02-R2")
+_COMPILED_GATE = "        if schema_translate_map:\n            self.schema_translate_map = schema_translate_map\n"
+R.mutant("compiled-init-gates-on-not-none-key-on-truthiness", CMP, sub(
+    _COMPILED_GATE, "        if schema_translate_map is not None:\n            self.schema_translate_map = schema_translate_map\n"), "C02-R2")
+R.mutant("benign-key-component-ternary-and-double-negation", ELT, chain(
+    sub(_KEY_STM, "                has_translate_map,\n"),
+    sub("            key = (\n                dialect,\n",
+        "            has_translate_map = True if schema_translate_map else False\n            key = (\n                dialect,\n")), None)
+R.mutant("benign-key-component-not-none-and-non-empty", ELT, sub(
+    _KEY_STM, "                schema_translate_map is not None and len(schema_translate_map) > 0,\n"), None)
+R.mutant("benign-compiled-init-gate-spelled-out", CMP, sub(
+    _COMPILED_GATE, "        has_map = schema_translate_map is not None and len(schema_translate_map) != 0\n"
+                    "        if has_map:\n            self.schema_translate_map = schema_translate_map\n"), None)
+R.mutant("benign-key-component-is-the-map-itself", ELT, sub(
+    _KEY_STM, "                tuple(sorted(schema_translate_map.items(), key=repr)) if schema_translate_map else (),\n"), None)
+
+_AGG_KW = "        literal_exec = dict(kw)\n        literal_exec[\"literal_execute\"] = True\n"
+R.mutant("seed4-aggregate-strings-delimiter-literal-binds", CMP, sub(
+    _AGG_KW, "        literal_exec = dict(kw)\n        literal_exec[\"literal_binds\"] = True\n"), "C02-R6")
+R.mutant("mssql-frame-clause-literal-binds", "dialects/mssql/base.py", sub(
+    "        kw[\"literal_execute\"] = True\n        return super().visit_frame_clause(frameclause, **kw)",
+    "        kw[\"literal_binds\"] = True\n        return super().visit_frame_clause(frameclause, **kw)"), "C02-R6")
+R.mutant("mysql-aggregate-strings-literal-binds-through-helper", "dialects/mysql/base.py", chain(
+    sub(_AGG_KW, "        literal_exec = self._inline_kw(kw)\n"),
+    sub("    def visit_sysdate_func(self, fn: sysdate, **kw: Any) -> str:\n",
+        "    def _inline_kw(self, kw):\n        return {**kw, \"literal_binds\": True}\n\n"
+        "    def visit_sysdate_func(self, fn: sysdate, **kw: Any) -> str:\n")), "C02-R6")
+R.mutant("sqlite-on-conflict-target-literal-binds-keyword", "dialects/sqlite/base.py", sub(
+    "include_table=False, use_schema=False, literal_execute=True\n",
+    "include_table=False, use_schema=False, literal_binds=True\n"), "C02-R6")
+R.mutant("mssql-top-literal-binds-unless-caller-asked-otherwise", "dialects/mssql/base.py", sub(
+    "            kw[\"literal_execute\"] = True\n            s += \"TOP %s \" % self.process(",
+    "            kw[\"literal_binds\"] = not kw.get(\"literal_execute\", False)\n            s += \"TOP %s \" % self.process("), "C02-R6")
+R.mutant("benign-aggregate-strings-kw-dict-display", CMP, sub(
+    _AGG_KW, "        literal_exec = {**kw, \"literal_execute\": True}\n"), None)
+R.mutant("benign-aggregate-strings-forwards-callers-literal-binds", CMP, sub(
+    _AGG_KW, _AGG_KW + "        literal_exec[\"literal_binds\"] = bool(kw.get(\"literal_binds\", False))\n"), None)
+R.mutant("benign-aggregate-strings-literal-binds-only-under-callers-flag", CMP, sub(
+    _AGG_KW, "        literal_exec = dict(kw)\n        caller_inline = kw.get(\"literal_binds\")\n"
+             "        if caller_inline:\n            literal_exec[\"literal_binds\"] = True\n"
+             "        else:\n            literal_exec[\"literal_execute\"] = True\n"), None)
+R.mutant("benign-mysql-aggregate-strings-kw-through-helper", "dialects/mysql/base.py", chain(
+    sub(_AGG_KW, "        literal_exec = self._inline_kw(kw)\n"),
+    sub("    def visit_sysdate_func(self, fn: sysdate, **kw: Any) -> str:\n",
+        "    def _inline_kw(self, kw):\n        inline = dict(kw)\n        inline.update(literal_execute=True)\n        return inline\n\n"
+        "    def visit_sysdate_func(self, fn: sysdate, **kw: Any) -> str:\n")), None)
+R.mutant("benign-compiler-renders-its-own-literal-inline", CMP, sub(
+    "    def visit_extract(self, extract, **kwargs):\n        field = self.extract_map.get(extract.field, extract.field)\n",
+    "    def visit_extract(self, extract, **kwargs):\n        field = self.extract_map.get(extract.field, extract.field)\n"
+    "        _unit = self.process(elements.literal_column(\"1\"), literal_binds=True)\n"), None)
+# the repair of this round's finding must be silent (and is the sibling idiom)
+R.mutant("benign-fix-oracle-json-path-literal-execute", "dialects/oracle/base.py", sub(
+    "        literal_kw = kw.copy()\n        literal_kw[\"literal_binds\"] = True\n",
+    "        literal_kw = kw.copy()\n        literal_kw[\"literal_execute\"] = True\n"), None)
